@@ -2,6 +2,14 @@
 """tools/seed_table.py: the table of seeded changes for DESIGN.md section 0.5, from seeded/*/meta.json."""
 import json, os, re
 NOTES = {
+ 'C12-7': 'missed -> a third of the cases hold only frozen messages, a third every other one',
+ 'C12-8': 'missed -> the times of one merge result are edited and the same tracks merged again (results independent of each other and of the inputs)',
+ 'C13-7': 'missed -> two iterations of one file and reads of length interleaved; play() with a consumer that reads length between messages',
+ 'C13-8': 'missed -> half of the streams spread over 2-5 tracks with few distinct ticks (tempo changes of different tracks on one tick)',
+ 'C14-7': 'missed -> lines with doubled / nested parentheses; an independent grammar oracle turns an accepted invalid text into a failing input',
+ 'C16-7': 'missed -> edits between values that Python hashes alike (pitch -1 / -2, time 0 / 2**61-1)',
+ 'C17-8': 'missed -> loads and saves under unusable charsets (unknown or empty name, not a string)',
+ 'C19-8': 'missed -> files of 3 000 .. 70 000 message bytes (thorough: 1 000 000) in both formats and five hand-made text layouts',
  'C11-8': 'missed -> MultiPort over device doubles that take several messages in and close themselves inside one poll',
  'C05-7': 'missed -> chunks are also fed as one-shot iterators and generators',
  'C04-7': 'missed -> the parsed messages are modified by their consumer and the same bytes parsed again (aliasing)',
